@@ -181,7 +181,7 @@ def run(tier, seed):
     base = [{'strip_whitespace': True}, {'use_space_around_operators': True}, {'reindent': True}]
     sub1 = [o for o in options.sets_within([g for g in options.LAYOUT if g[0] in options.REINDENT_SUB or g[0] == 'indent_columns'], 1) if o]
     sub2 = [o for o in options.sets_within([g for g in options.LAYOUT if g[0] in options.REINDENT_SUB or g[0] == 'indent_columns'], 2) if len(o) > 2]
-    fam = {'der', 'cm', 'lit', 'style', 'ws0'}
+    fam = {'der', 'cm', 'lit', 'style', 'ws0', 'wstyle'}
     if tier == 'quick':
         blocks = [('<=1 of {derivation, comment, literal, style, gap toggle} x {strip_whitespace, spaces, reindent, '
                    'reindent + one sub-option}', fam, 1, base + sub1),
